@@ -19,7 +19,7 @@ MANIFEST = {
 }
 
 RULE = ("corpus: every directory of the tree under test (any depth) with *.xgo/*.gop/*.gox files, checked as a package or file by file, as far as the checker accepts it (time cap 30 s quick, 300 s thorough, seed-dependent start); "
-        "generated: per index one Go-compatible program (package-level consts/vars/types/interface declared before or after use, a method, 2-3 functions with named / "
+        "generated: per index one Go-compatible program of 1-2 files (0-4 package-level types/consts/vars/funcs named like XGo builtins or predeclared Go identifiers, declared after first use or in the other file; package-level consts/vars/types/interface declared before or after use, a method, 2-3 functions with named / "
         "variadic results, structs with embedded fields of every form, tags, anonymous structs, embedded interfaces, main; bodies of 26 statement kinds nested to depth 3 over a 14-name pool so that names are re-declared and shadowed in if/for/switch/"
         "type-switch/range/select/closure scopes) checked by typesutil (as .xgo) and by go/types, and every 4th index one XGo program (33 statement kinds, closures, "
         "class file); non-trivial = distinct Go-compatible program that go/types accepts (its scope-event stream is the model case)")
